@@ -145,6 +145,7 @@ def finish_program(p):
             names.add(x['name'])
     p['names'] = sorted(names)
     p.setdefault('pure', 0)
+    p.setdefault('keys', 0)       # 1: the state object is a dict with constant keys (o['v']) instead of attributes (o.v)
     p['lists'] = 1 if any(d['kind'] in ('newlist', 'append', 'pop', 'getitem', 'setitem') for d in p['nodes']) else 0
     p['anc'] = ancestors(p)
     return p
@@ -526,7 +527,9 @@ class RandomGen:
             b.fns[fid - 1]['body'] = _initial_assignments(b, self.r, self.names, 0.8, fn=fid) + gbody
         body = self.block(1, self.names + ['a', 'b'], 0, False, lo=lo, hi=hi)
         b.fns[0]['body'] = initial_assignments(b, self.r, self.names, self.init, self.cx, self.objects, self.lists) + body
-        return b.finish()
+        p = b.finish()
+        p['keys'] = 1 if (self.objects and self.r.random() < 0.4) else 0
+        return p
 
 
 def gen_random(seed, **kw):
@@ -544,7 +547,7 @@ def r_expr(p, e):
     if k == 'name':
         return x['name']
     if k == 'attr':
-        return '%s.%s' % (x['name'], x['attr'])
+        return ('%s[%r]' if p.get('keys') else '%s.%s') % (x['name'], x['attr'])
     if k == 'seq2':
         return r_expr(p, x['args'][0])
     if k == 'const':
@@ -599,7 +602,7 @@ def r_stmt(p, n, ind, out):
     elif k == 'expr':
         emit(r_expr(p, d['e']))
     elif k == 'newobj':
-        emit('%s = O()' % d['tgt'][0])
+        emit('%s = %s()' % (d['tgt'][0], 'KV' if p.get('keys') else 'O'))
     elif k == 'newlist':
         emit('%s = []' % d['tgt'][0])
     elif k == 'append':
@@ -611,7 +614,7 @@ def r_stmt(p, n, ind, out):
     elif k == 'setitem':
         emit('%s[%d] = %s' % (d['name'], d['k'], r_expr(p, d['e'])))
     elif k == 'setattr':
-        emit('%s.%s = %s' % (d['name'], d['attr'], r_expr(p, d['e'])))
+        emit(('%s[%r] = %s' if p.get('keys') else '%s.%s = %s') % (d['name'], d['attr'], r_expr(p, d['e'])))
     elif k == 'if':
         emit('if %s:' % r_expr(p, d['e']))
         r_block(p, d['body'], ind + 1, out)
@@ -726,7 +729,7 @@ def enc(v):
         return ['l', v.serial, len(v)]
     if isinstance(v, list):       # the result of a comprehension
         return ['c', len(v), 0]
-    if isinstance(v, Obj):
+    if isinstance(v, (Obj, KVDict)):
         return ['o', v._serial, 0]
     if isinstance(v, E1):
         return ['x', 1, 0]
@@ -739,6 +742,10 @@ def enc(v):
 
 class IList(list):
     serial = 0
+
+
+class KVDict(dict):
+    """Constant-key state: d['v'] / d['w'] play the role of o.v / o.w (program flag `keys`)."""
 
 
 class Obj:
@@ -791,6 +798,12 @@ class Run:
         o._serial = self.nobj
         return o
 
+    def KV(self):
+        self.nobj += 1
+        o = KVDict()
+        o._serial = self.nobj
+        return o
+
     def CM(self, k):
         run = self
 
@@ -805,7 +818,7 @@ class Run:
         return _CM()
 
     def ns(self):
-        return dict(T=self.T, D=self.D, I=self.I, CM=self.CM, O=self.O, DEC=self.DEC, E1=E1, E2=E2, set_loop_options=_no_directive)
+        return dict(T=self.T, D=self.D, I=self.I, CM=self.CM, O=self.O, KV=self.KV, DEC=self.DEC, E1=E1, E2=E2, set_loop_options=_no_directive)
 
 
 def main_args(p, inp=None):
@@ -1049,6 +1062,7 @@ class PureGen:
         b.fns[0]['body'] = body
         p = b.finish()
         p['pure'] = 1
+        p['keys'] = 1 if (self.objects and self.r.random() < 0.4) else 0
         return p
 
 
